@@ -331,11 +331,13 @@ def _wiggle(stop, chip, base, nfans, file_fans, seed, fault_at):
                     _put(os.path.join(base, f"sx{k}_input"), "x\n" if bad else "%d\n" % rnd.randrange(30000, 60000))
             _put(os.path.join(chip, "temp1_input"), "%d\n" % rnd.randrange(25000, 90000))
             i = rnd.randrange(1, nfans + 1)
-            _put(os.path.join(chip, f"fan{i}_input"), "%d\n" % rnd.choice([0, 0, 300, 1000, 2500]))
+            # an RPM input is unreadable now and then (EIO while the chip updates its registers; seed C20l: the monitor's retry
+            # assigned the control loop's error variable)
+            _put(os.path.join(chip, f"fan{i}_input"), rnd.choice(["0\n", "0\n", "300\n", "1000\n", "2500\n", "x\n"]))
             if rnd.randrange(20) == 0:
                 _put(os.path.join(chip, f"pwm{i}"), "%d\n" % rnd.randrange(0, 256))
             for j in range(1, file_fans + 1):
-                _put(os.path.join(base, f"filefan{j}_rpm"), "%d\n" % rnd.choice([0, 0, 500, 2000]))
+                _put(os.path.join(base, f"filefan{j}_rpm"), rnd.choice(["0\n", "0\n", "500\n", "2000\n", "x\n"]))
             if os.path.exists(os.path.join(base, "cmdfan_rpm")):
                 _put(os.path.join(base, "cmdfan_rpm"), "%d\n" % rnd.choice([0, 0, 700]))
                 _put(os.path.join(base, "s2_input"), "%d\n" % rnd.randrange(25000, 90000))
